@@ -134,6 +134,14 @@ def maps(ctx, out):
         res, tempo = rand_map(rng, rng.choice([1, 3, 6, 6, 12, 40]), big=rng.random() < 0.1)
         for tick in ticks_for(rng, res, tempo, 3):
             cases.append((res, tempo, tick))
+    # always: a very fast tempo up to an enormous tick, then a slow one — the time is small, the tick count is not; whatever way the
+    # arithmetic is arranged, ticks in the slow segment keep their exact time
+    for res, t1, n_fast, n_slow in ((192, 192 * 10**9, 10**9, 1370), (192, 10**11, 999999999, 2000), (960, 5 * 10**11, 10**9, 1001),
+                                    (1, 10**9, 10**9, 7), (480, 2**40, 10**9, 1234)):
+        tempo = [(0, n_fast), (t1, n_slow)]
+        for tick in [t1, t1 + 1, t1 + 7, t1 + 100, t1 + 12345] + [t1 + rng.randint(1, 10**5) for _ in range(6)]:
+            if in_envelope(res, tempo, tick)[0]:
+                cases.append((res, tempo, tick))
     reqs = [f"tsat {res} {','.join(f'{t}:{n}' for t, n in tempo)} {tick} 0" for res, tempo, tick in cases]
     mod = driver.run_parallel(reqs)
     cache = {}
